@@ -33,21 +33,32 @@ func genPrim(r *rand.Rand) V {
 	}
 }
 
-func genRTCond(r *rand.Rand, depth int) V {
+func genRTCond(r *rand.Rand, depth int) V { return genRTCondN(r, depth, 3, "n") }
+
+// genRTCondN: a Condition in the given form whose expression is a primitive, a Stack, or a Condition again (cnest
+// further levels: Condition in Condition to depth 3, every inner one independently native / alias / alias with String /
+// pointer; a Stack may sit below an inner Condition even at tree depth 0). F43: Unmarshal expands the inner Condition,
+// Marshal rebuilds it.
+func genRTCondN(r *rand.Rand, depth, cnest int, form string) V {
 	op := []string{"c1", "c2", "c3", "c4", "c5", "c6", fmt.Sprintf("u1:%s:%s", hx("~="), hx("approx")), "-"}[r.Intn(8)] // "-": built step by step, never given an operator
 	var ex V
 	switch {
-	case depth > 0 && r.Intn(3) == 0:
-		ex = genRTStack(r, depth-1)
-	case r.Intn(6) == 0:
-		ex = V{T: 'C', Form: "n", Kw: "in", Op: "c1", Xs: []V{{T: 'i', I: int64(r.Intn(9))}}}
+	case (depth > 0 || cnest < 3) && r.Intn(3) == 0:
+		d := depth - 1
+		if d < 0 {
+			d = 0
+		}
+		ex = genRTStack(r, d)
+	case cnest > 0 && r.Intn(2+cnest/3) == 0: // outermost: one in three; inside a chain: one in two
+		ex = genRTCondN(r, depth, cnest-1, forms[r.Intn(4)])
+		ex.Kw = []string{"in", "in2", "in3"}[3-cnest] // the level is legible in the replay
 	default:
 		ex = genPrim(r)
 		for ex.T == 'N' || (ex.T == 's' && ex.S == "") {
 			ex = genPrim(r)
 		}
 	}
-	return V{T: 'C', Form: "n", Kw: []string{"cn", "mail", "k w"}[r.Intn(3)], Op: op, Xs: []V{ex}}
+	return V{T: 'C', Form: form, Kw: []string{"cn", "mail", "k w"}[r.Intn(3)], Op: op, Xs: []V{ex}}
 }
 
 func genRTStack(r *rand.Rand, depth int) V {
@@ -191,29 +202,52 @@ func genAnyEntry(r *rand.Rand, depth int) V {
 	}
 }
 
+// genAnyCondRow: well-formed-ish CONDITION row with 0..6 fields; one expression entry in three (when depth allows) is itself
+// such a row - well-formed or not - or, rarer, enveloped: extractConditionValues decodes it first, a Condition in a Condition
+// comes out, or "Malformed condition" travels up (F43: this is the shape Unmarshal writes for a held Condition)
+func genAnyCondRow(r *rand.Rand, depth int) V {
+	row := V{T: 'A'}
+	row.Xs = append(row.Xs, V{T: 's', S: []string{"CONDITION", "condition"}[r.Intn(2)]})
+	n := r.Intn(6)
+	if r.Intn(2) == 0 {
+		n = 3
+	}
+	for i := 0; i < n; i++ {
+		switch i {
+		case 0:
+			if r.Intn(4) == 0 {
+				row.Xs = append(row.Xs, genAnyEntry(r, depth))
+			} else {
+				row.Xs = append(row.Xs, V{T: 's', S: "kw"})
+			}
+		case 1:
+			if r.Intn(3) == 0 {
+				row.Xs = append(row.Xs, genAnyEntry(r, depth))
+			} else {
+				row.Xs = append(row.Xs, V{T: 'O', Op: []string{"c1", "c5", "c0", "-", "z", "y", fmt.Sprintf("v1:%s:%s", hx("~~"), hx("list")), fmt.Sprintf("u1:%s:%s", hx("~="), hx("approx"))}[r.Intn(8)]})
+			}
+		case 2:
+			if depth > 0 && r.Intn(3) == 0 {
+				in := genAnyCondRow(r, depth-1)
+				if r.Intn(6) == 0 {
+					in = V{T: 'A', Xs: []V{in}}
+				}
+				row.Xs = append(row.Xs, in)
+			} else {
+				row.Xs = append(row.Xs, genAnyEntry(r, depth))
+			}
+		default:
+			row.Xs = append(row.Xs, genAnyEntry(r, depth))
+		}
+	}
+	return row
+}
+
 func genAnyRow(r *rand.Rand, depth int) V {
 	row := V{T: 'A'}
 	switch r.Intn(8) {
-	case 0: // well-formed-ish CONDITION row with 0..6 fields
-		row.Xs = append(row.Xs, V{T: 's', S: []string{"CONDITION", "condition"}[r.Intn(2)]})
-		for i, n := 0, r.Intn(6); i < n; i++ {
-			switch i {
-			case 0:
-				if r.Intn(4) == 0 {
-					row.Xs = append(row.Xs, genAnyEntry(r, depth))
-				} else {
-					row.Xs = append(row.Xs, V{T: 's', S: "kw"})
-				}
-			case 1:
-				if r.Intn(3) == 0 {
-					row.Xs = append(row.Xs, genAnyEntry(r, depth))
-				} else {
-					row.Xs = append(row.Xs, V{T: 'O', Op: []string{"c1", "c5", "c0", "-", "z", "y", fmt.Sprintf("v1:%s:%s", hx("~~"), hx("list")), fmt.Sprintf("u1:%s:%s", hx("~="), hx("approx"))}[r.Intn(8)]})
-				}
-			default:
-				row.Xs = append(row.Xs, genAnyEntry(r, depth))
-			}
-		}
+	case 0:
+		return genAnyCondRow(r, depth)
 	case 1: // envelopes
 		inner := genAnyRow(r, depth)
 		for i, n := 0, 1+r.Intn(3); i < n; i++ {
